@@ -15,6 +15,8 @@ def run_chunk(args):
     model on the recorded traces, compare.  Returns a JSON-able summary."""
     (seed, chunk, jobs, corr) = args
     from . import solverlib as L, solverrec as R
+    import logging
+    logging.getLogger("claripy.backends.backend_vsa").setLevel(logging.ERROR)   # "Overflow in multiplication detected." etc.
     t0 = time.time()
     uni = L.Universe()
     reg = R.Registry(uni) if corr else None
